@@ -188,6 +188,89 @@ def stringContainer (elementClasses : List (StrClass × StrClass)) (containers :
     if container = .navigableString then (containers.lookup name).getD container else container
   | none => container
 
+/-! ### configuration handling: the builder's option, `Tag.__init__` in full, `new_tag`, `copy_self` -/
+
+/-- the `string_containers` keyword of `TreeBuilder.__init__` -/
+inductive SCArg where
+  | useDefault                                  -- not passed (`USE_DEFAULT`)
+  | none                                        -- `None` (not a documented value)
+  | dict (l : List (PStr × StrClass))           -- a dictionary (possibly empty)
+deriving Repr
+
+/-- `TreeBuilder.__init__` (builder/__init__.py: `if string_containers == self.USE_DEFAULT: string_containers =
+    self.DEFAULT_STRING_CONTAINERS; self.string_containers = string_containers`). `dflt` = the class attribute
+    `DEFAULT_STRING_CONTAINERS` of the builder class; `None` is stored as it is. -/
+def builderStringContainers (dflt : List (PStr × StrClass)) : SCArg → Option (List (PStr × StrClass))
+  | .useDefault => some dflt
+  | .none => Option.none
+  | .dict l => some l
+
+/-- outcome of `Tag.__init__` as far as `interesting_string_types` goes -/
+inductive InitResult where
+  | ok (i : Interesting)
+  | typeError                 -- `self.name in builder.string_containers` with `string_containers=None`
+deriving DecidableEq, Repr
+
+/-- `Tag.__init__` (element.py: `if builder is None: … self.interesting_string_types = interesting_string_types` /
+    `else: … if self.name in builder.string_containers: … else: …`). `builder` = `none` for a builder-less tag,
+    `some sc` for a builder whose `string_containers` attribute is `sc`; `param` = the `interesting_string_types`
+    argument (default `None`), which is **ignored** when a builder is given. -/
+def tagInitInteresting (main : List StrClass) (builder : Option (Option (List (PStr × StrClass)))) (name : PStr)
+    (param : Interesting) : InitResult :=
+  match builder with
+  | Option.none => .ok param
+  | some Option.none => .typeError
+  | some (some cont) => .ok (interestingFor main cont name)
+
+/-- `BeautifulSoup.new_tag(name)`: `Tag(None, self.builder, name, …)` -/
+def newTagInteresting (main : List StrClass) (sc : Option (List (PStr × StrClass))) (name : PStr) : InitResult :=
+  tagInitInteresting main (some sc) name .none
+
+/-- `Tag.copy_self`: `type(self)(None, None, self.name, …, interesting_string_types=self.interesting_string_types)` -/
+def copySelfInteresting (main : List StrClass) (name : PStr) (i : Interesting) : InitResult :=
+  tagInitInteresting main Option.none name i
+
+/-- `BeautifulSoup.copy_self` (bs4/__init__.py): `type(self)("", None, self.builder)` — a new root made from the same
+    builder; an `interesting_string_types` set by hand on the original root object is not carried over -/
+def soupCopySelfInteresting (main : List StrClass) (sc : Option (List (PStr × StrClass))) (root : PStr)
+    (_original : Interesting) : InitResult :=
+  tagInitInteresting main (some sc) root .none
+
+mutual
+/-- `Tag.__copy__`/`__deepcopy__` as far as text extraction can see: every tag through `copy_self`, every string
+    through `type(self)(self)` (same class, same value), children in the same order -/
+def copyNode (main : List StrClass) : Node → Node
+  | .str c v => .str c v
+  | .tag n i ks =>
+    match copySelfInteresting main n i with
+    | .ok j => .tag n j (copyNodeL main ks)
+    | .typeError => .tag n .none (copyNodeL main ks)
+def copyNodeL (main : List StrClass) : List Node → List Node
+  | [] => []
+  | k :: ks => copyNode main k :: copyNodeL main ks
+end
+
+/-- `string_container_stack` maintenance (bs4/__init__.py `pushTag`: `if tag.name in self.builder.string_containers:
+    self.string_container_stack.append(tag)`; `popTag`: `if self.string_container_stack and tag ==
+    self.string_container_stack[-1]: pop()`), on the list of open elements (innermost first, each with a flag
+    "is on the container stack") — the full parser is C03's machine (Model/Builder.lean); this is the part
+    `string_container()` reads. -/
+def containerStackTop (cont : List (PStr × StrClass)) (openNames : List PStr) : Option PStr :=
+  openNames.find? (fun n => (cont.lookup n).isSome)
+
+/-- numbering shared with C03's builder machine (`Cls`): 0 = NavigableString ("no class of its own") -/
+def StrClass.code : StrClass → Nat
+  | .navigableString => 0 | .preformattedString => 1 | .cData => 2 | .processingInstruction => 3
+  | .xMLProcessingInstruction => 4 | .comment => 5 | .declaration => 6 | .doctype => 7 | .stylesheet => 8
+  | .script => 9 | .templateString => 10 | .rubyTextString => 11 | .rubyParenthesisString => 12
+  | .other k => 13 + k
+
+def StrClass.ofCode : Nat → StrClass
+  | 0 => .navigableString | 1 => .preformattedString | 2 => .cData | 3 => .processingInstruction
+  | 4 => .xMLProcessingInstruction | 5 => .comment | 6 => .declaration | 7 => .doctype | 8 => .stylesheet
+  | 9 => .script | 10 => .templateString | 11 => .rubyTextString | 12 => .rubyParenthesisString
+  | k + 13 => .other k
+
 /-! ### spec: the recursive evaluator -/
 
 mutual
